@@ -38,8 +38,12 @@ var defPar = [5]float64{2, 10, 100, 100, 1000}
 
 const inf = 1000.0
 
+// flaggedEnd: the paragraph of the case being generated closes with the FLAGGED forced break of Knuth and Plass
+// (Penalty(0, -inf, true)): a hyphenated line before the last one then costs the consecutive-flag demerits
+var flaggedEnd bool
+
 func endPar(items []text.Item) []text.Item {
-	return append(items, text.Glue(0, inf, 0), text.Penalty(0, -inf, false))
+	return append(items, text.Glue(0, inf, 0), text.Penalty(0, -inf, flaggedEnd))
 }
 
 // q returns a small number: mostly an integer in [lo,hi], sometimes with a quarter fraction
@@ -254,6 +258,7 @@ func main() {
 			continue
 		}
 		r := root.Fork(uint64(i))
+		flaggedEnd = i%3 == 1
 		p := generate(r, i)
 		bs, ok, pmsg := run(p)
 		for _, b := range bs {
